@@ -66,6 +66,53 @@ def component_node(index: RepoIndex, func: Func) -> Tuple[ast.FunctionDef, list]
     return node, inlined
 
 
+_DEEP_FORMS = ('pickle.loads(pickle.dumps({x}))', 'copy.deepcopy({x})', 'deepcopy({x})',
+               'pickle.loads(pickle.dumps({x}, protocol=pickle.HIGHEST_PROTOCOL))',
+               'pickle.loads(pickle.dumps({x}, pickle.HIGHEST_PROTOCOL))')
+
+
+def deep_copy_of(index: RepoIndex, module, expr: ast.AST, var: str, depth: int = 4) -> bool:
+    """does `expr` denote, on every evaluation, a deep copy of the object named `var`?  A
+    pickle round trip / copy.deepcopy of it, a conditional whose alternatives both are, a
+    repository function of `var` whose returned expression is a deep copy of its first
+    parameter, or a method called on `var` such that every method of that name in the package
+    returns a deep copy of its receiver."""
+    from .core import src
+    from .inline import _methods_named, pure_body_expr
+    if depth <= 0 or expr is None:
+        return False
+    if isinstance(expr, ast.IfExp):
+        return deep_copy_of(index, module, expr.body, var, depth) and \
+            deep_copy_of(index, module, expr.orelse, var, depth)
+    if not isinstance(expr, ast.Call):
+        return False
+    if src(expr) in {f.format(x=var) for f in _DEEP_FORMS}:
+        return True
+    if any(isinstance(a, ast.Starred) for a in expr.args) or \
+            any(k.arg is None for k in expr.keywords):
+        return False
+    if isinstance(expr.func, ast.Attribute) and src(expr.func.value) == var and \
+            not expr.args and not expr.keywords:
+        cands = _methods_named(index, expr.func.attr)
+        if not cands:
+            return False
+        for m in cands:
+            ps = list(m.node.args.posonlyargs) + list(m.node.args.args)
+            e = pure_body_expr(m.node) if len(ps) == 1 and not m.node.decorator_list else None
+            if e is None or not deep_copy_of(index, m.module, e, ps[0].arg, depth - 1):
+                return False
+        return True
+    r = index.resolve_callee(module, expr.func)
+    if isinstance(r, Func) and r.cls is None and len(expr.args) == 1 and not expr.keywords \
+            and src(expr.args[0]) == var and not r.node.decorator_list:
+        ps = r.positional()
+        if len(ps) >= 1 and all(d is not None for p_, d in r.param_defaults().items()
+                                if p_ != ps[0].arg):
+            e = pure_body_expr(r.node)
+            return e is not None and deep_copy_of(index, r.module, e, ps[0].arg, depth - 1)
+    return False
+
+
 def step_wiring(index: RepoIndex) -> dict:
     """facts about GridWorld.functional_step in normal form (transition_with_copy inlined):
     the in-place transition calls, the local they mutate and its definition, the returned
@@ -77,11 +124,14 @@ def step_wiring(index: RepoIndex) -> dict:
     tcalls = [e for e in w.events if e.kind == 'call'
               and src(e.node.func) == 'self._transition_function']
     out = {'func': fs, 'walk': w, 'state': sp, 'action': ap, 'tcalls': tcalls,
-           'copy': None, 'copy_def': None, 'inlined': inlined}
+           'copy': None, 'copy_def': None, 'copy_deep': False, 'inlined': inlined}
     if len(tcalls) == 1 and tcalls[0].node.args and isinstance(tcalls[0].node.args[0], ast.Name):
         c = tcalls[0].node.args[0].id
         out['copy'] = c
         ds = [d for d in w.defs.get(c, []) if d[0] == 'value']
         if len(ds) == 1 and len(w.defs.get(c, [])) == 1 and c != sp:
             out['copy_def'] = src(w.expand(ds[0][1]))
+            out['copy_deep'] = deep_copy_of(index, fs.module, w.expand(ds[0][1]), sp) or \
+                deep_copy_of(index, index.module('gym_gridverse/envs/transition_functions.py'),
+                             w.expand(ds[0][1]), sp)
     return out
